@@ -11,8 +11,8 @@ def header_block_size : Option (List (List Nat × Nat)) := some [([65], 8), ([66
 def keyblock_mac_len : Option (List (List Nat × Nat)) := some [([65], 4), ([66], 8), ([67], 4), ([68], 16)]
 def keyblock_block_size : Option (List (List Nat × Nat)) := some [([65], 8), ([66], 8), ([67], 8), ([68], 16)]
 def keyblock_algo_max_key_len : Option (List (List Nat × Nat)) := some [([84], 24), ([68], 24), ([65], 32)]
-def wrap_dispatch : Option (List (List Nat × String)) := some [([65], "_c_wrap"), ([66], "_b_wrap"), ([67], "_c_wrap"), ([68], "_d_wrap")]
-def unwrap_dispatch : Option (List (List Nat × String)) := some [([65], "_c_unwrap"), ([66], "_b_unwrap"), ([67], "_c_unwrap"), ([68], "_d_unwrap")]
+def wrap_dispatch : Option (List (List Nat × Nat)) := some [([65], 0), ([66], 1), ([67], 0), ([68], 2)]
+def unwrap_dispatch : Option (List (List Nat × Nat)) := some [([65], 0), ([66], 1), ([67], 0), ([68], 2)]
 def cvv_translate : Option (List (Nat × Nat)) := some [(97, 48), (98, 49), (99, 50), (100, 51), (101, 52), (102, 53)]
 def pvv_translate : Option (List (Nat × Nat)) := some [(97, 48), (98, 49), (99, 50), (100, 51), (101, 52), (102, 53)]
 def ibm_maketrans_from : Option (List (List Nat)) := some [[48, 49, 50, 51, 52, 53, 54, 55, 56, 57, 65, 66, 67, 68, 69, 70], [48, 49, 50, 51, 52, 53, 54, 55, 56, 57, 65, 66, 67, 68, 69, 70]]
